@@ -69,6 +69,15 @@ def family():
             ["M", [["a", ["L", [S(1)], None]], ["b", S(1)]], None],
             ["M", [["b", S(1)], ["a", ["L", [S(1), S(None)], None]]], None],
             ["T", ["a", "b"], None], ["T", ["b"], None], ["T", [], None]]
+    # lists reached after other keys have produced entries (replacements,
+    # inserts, deletes and reorders of one element)
+    variants = [[1, 2, 3], [1, 9, 3], [1, 3], [1, 2, 3, 4], [3, 2, 1],
+                [1, 2, 2], ["a", "b", "c"], ["a", "z", "c"]]
+    for v in variants:
+        lst = ["L", [S(x) for x in v], None]
+        out.append(["M", [["n", S("x")], ["v", S(1)], ["a", lst]], None])
+        out.append(["M", [["n", S("y")], ["v", S(1)], ["a", lst]], None])
+        out.append(["M", [["a", lst], ["n", S("x")]], None])
     return out
 
 
@@ -347,6 +356,27 @@ def check_pair(ltext, rtext, arrays, aoh, res, label=""):
                              % (side, leaf, _show(entries)))
                     return
     else:
+        if aoh not in ("key", "deep"):
+            # value-synchronised modes: what an entry says about the LEFT
+            # document (and an ADD about the right one) must still be true
+            for e in entries:
+                act = e.action.name
+                lv = resolve(ldoc, e.path)
+                rv = resolve(rdoc, e.path)
+                why = None
+                if act in ("SAME", "CHANGE", "DELETE") and (
+                        lv is MISSING or not _same_value(lv, e.lhs)):
+                    why = "left value is not what L holds at the path"
+                elif act == "ADD" and (rv is MISSING
+                                       or not _same_value(rv, e._rhs)):
+                    why = "right value is not what R holds at the path"
+                if why:
+                    res.fail({"clause": "entry-is-true", "action": act,
+                              "why": why, "sync": "value"}, case,
+                             "entry %s %s lhs=%r rhs=%r; entries: %s" % (
+                                 act, e.path.original, e.lhs, e._rhs,
+                                 _show(entries)))
+                    return
         why = _accounting(entries, ldoc, rdoc)
         if why:
             res.fail({"clause": "each-element-accounted-once",
